@@ -194,6 +194,17 @@ def pm_family(tier):
                     "pub const X: &str = \"b\";\npub fn f(mut p: konst::Parser<'_>) { konst::parser_method!{p, trim_start_matches; concat!(\"a\", X)} }\n",
                     "pub fn f(mut p: konst::Parser<'_>) { konst::parser_method!{p, trim_start_matches; concat!(\"a\", \"b\")} }\n",
                     [dict(msg="Expected one of"), dict(msg="string literal")]))
+    # patterns that merely *begin* with a string literal (range patterns), or wrap one (binding, reference, parentheses)
+    for shape, pat in (("range-inclusive", '"a"..="b"'), ("range-from", '"a"..'), ("range-dots3", '"a"..."b"'), ("binding", 'x @ "a"'), ("reference", '&"a"'), ("parenthesised", '("a")')):
+        for m in ("strip_prefix", "strip_suffix", "find_skip", "rfind_skip"):
+            out.append(Prog("non-literal-pattern", "%s/%s" % (shape, m), pm(pat + " => 1, _ => 0", m), pm(good, m),
+                            [dict(msg="Expected one of"), dict(msg="string literal"), dict(msg="no rules expected")]))
+        for m in ("trim_start_matches", "trim_end_matches"):
+            out.append(Prog("non-literal-pattern", "%s/%s" % (shape, m), "pub fn f(mut p: konst::Parser<'_>) { konst::parser_method!{p, %s; %s} }\n" % (m, pat),
+                            "pub fn f(mut p: konst::Parser<'_>) { konst::parser_method!{p, %s; \"a\"} }\n" % m,
+                            [dict(msg="Expected one of"), dict(msg="string literal"), dict(msg="no rules expected")]))
+    out.append(Prog("non-literal-pattern", "range-second-alternative", pm('"q" | "a"..="b" => 1, _ => 0'), pm('"q" | "a" => 1, _ => 0'),
+                    [dict(msg="Expected one of"), dict(msg="string literal"), dict(msg="no rules expected")]))
     out.append(Prog("non-literal-pattern", "byte-string", pm('b"a" => 1, _ => 0'), pm(good), [dict(msg="Expected one of"), dict(msg="string literal")]))
     out.append(Prog("non-literal-pattern", "char", pm("'a' => 1, _ => 0"), pm(good), [dict(msg="Expected one of"), dict(msg="string literal")]))
     out.append(Prog("missing-default", "no trailing comma", pm('"a" => 1'), pm(good), [dict(msg="no rules expected"), dict(msg="expected more branches"), dict(msg="unexpected end of macro")]))
